@@ -172,26 +172,27 @@ package shutterevents
 //@   ensures len(rtApology(ret0).PolyEval) == len(x.PolyEval) && (forall i :: 0 <= i && i < len(x.PolyEval) ==> (rtApology(ret0).PolyEval[i] != nil && bigval(rtApology(ret0).PolyEval[i]) == bigval(x.PolyEval[i])))
 //@
 //@ // ---- CheckIn: the encryption key travels as base64url of the uncompressed point
+//@ pred urlEnc() := global("base64.RawURLEncoding")
 //@ func encodePubkey
 //@   requires pubkey != nil
-//@   ensures ret0 == b64Enc(pubBytes(ecdsaPoint(pubkey)))
+//@   ensures ret0 == b64Enc(urlEnc(), pubBytes(ecdsaPoint(pubkey)))
 //@ func decodePubkey
 //@   ensures ret1 == nil ==> ret0 != nil
-//@   ensures (isB64(val) && isPubBytes(b64Dec(val))) ==> (ret1 == nil && ecdsaPoint(ret0) == pubOfBytes(b64Dec(val)))
+//@   ensures (isB64(urlEnc(), val) && isPubBytes(b64Dec(urlEnc(), val))) ==> (ret1 == nil && ecdsaPoint(ret0) == pubOfBytes(b64Dec(urlEnc(), val)))
 //@ func encodeECIESPublicKey
 //@   requires key != nil
-//@   ensures ret0 == b64Enc(pubBytes(eciesPoint(key)))
+//@   ensures ret0 == b64Enc(urlEnc(), pubBytes(eciesPoint(key)))
 //@ func decodeECIESPublicKey
 //@   ensures ret1 == nil ==> ret0 != nil
-//@   ensures (isB64(val) && isPubBytes(b64Dec(val))) ==> (ret1 == nil && eciesPoint(ret0) == pubOfBytes(b64Dec(val)))
+//@   ensures (isB64(urlEnc(), val) && isPubBytes(b64Dec(urlEnc(), val))) ==> (ret1 == nil && eciesPoint(ret0) == pubOfBytes(b64Dec(urlEnc(), val)))
 //@ func (CheckIn).MakeABCIEvent
 //@   requires msg.EncryptionPublicKey != nil
 //@   ensures ret0.Type == "shutter.check-in" && len(ret0.Attributes) == 2
 //@   ensures ret0.Attributes[0].Key == "Sender" && ret0.Attributes[0].Value == addrHex(msg.Sender)
-//@   ensures ret0.Attributes[1].Key == "EncryptionPublicKey" && ret0.Attributes[1].Value == b64Enc(pubBytes(eciesPoint(msg.EncryptionPublicKey)))
+//@   ensures ret0.Attributes[1].Key == "EncryptionPublicKey" && ret0.Attributes[1].Value == b64Enc(urlEnc(), pubBytes(eciesPoint(msg.EncryptionPublicKey)))
 //@ func makeCheckIn
 //@   ensures ret1 == nil ==> (ret0 != nil && ret0.Height == height && ret0.EncryptionPublicKey != nil)
-//@   ensures (len(ev.Attributes) >= 2 && ev.Attributes[0].Key == "Sender" && ev.Attributes[1].Key == "EncryptionPublicKey" && addrHex(hexToAddr(ev.Attributes[0].Value)) == ev.Attributes[0].Value && isB64(ev.Attributes[1].Value) && isPubBytes(b64Dec(ev.Attributes[1].Value))) ==> (ret1 == nil && ret0.Sender == hexToAddr(ev.Attributes[0].Value) && eciesPoint(ret0.EncryptionPublicKey) == pubOfBytes(b64Dec(ev.Attributes[1].Value)))
+//@   ensures (len(ev.Attributes) >= 2 && ev.Attributes[0].Key == "Sender" && ev.Attributes[1].Key == "EncryptionPublicKey" && addrHex(hexToAddr(ev.Attributes[0].Value)) == ev.Attributes[0].Value && isB64(urlEnc(), ev.Attributes[1].Value) && isPubBytes(b64Dec(urlEnc(), ev.Attributes[1].Value))) ==> (ret1 == nil && ret0.Sender == hexToAddr(ev.Attributes[0].Value) && eciesPoint(ret0.EncryptionPublicKey) == pubOfBytes(b64Dec(urlEnc(), ev.Attributes[1].Value)))
 //@ pred rtCheckIn(r) := as(r, "*shutterevents.CheckIn")
 //@ func verifRoundTripCheckIn
 //@   requires x.EncryptionPublicKey != nil
